@@ -50,6 +50,18 @@ CHECKS = {
             'connections open successfully; a lent request that timed out no longer occupies its connection',
             'Hypothesis op-list state machine on real timeout sink + pool vs queue/capacity model',
             '5/C07', 'simkernel'),
+    'C08': ('fault_enumeration',
+            'For every small scenario (serial: 1-3 sequential requests with/without deadlines and with an unanswered first '
+            'request that forces a reconnect; mux: 0-3 concurrent requests, one possibly unanswered) a fault-free baseline run '
+            'yields the I/O operations of each connection; the grid connection x operation index x fault kind (send raises; recv '
+            'raises / EOF, immediately or when data arrives; connect refused / error; peer close / reset at 4 times; unanswered '
+            'initial ping; peer stops answering pings) is then enumerated completely (exhaustive: true, quick tier), plus '
+            'Hypothesis-generated larger scenarios with chunked reads. Oracle: exactly one message per request, an error for '
+            'those in flight at the fault; Closed + fault signal after an effective fault; a transport that reports Open and '
+            'idle carries a probe request.',
+            'one fault per scenario; network simulated below gsocket; sendall atomic; idle serial connections notice a peer close at the next I/O',
+            'fault-position x fault-kind enumeration from baseline I/O traces + Hypothesis scenarios; probe-after-fault oracle',
+            '5/C08', 'simnet'),
     'C10': ('exploration',
             'Generated schedule/cancel/advance histories (actions may schedule or cancel) are run against the real '
             'TimerQueue on a virtual clock and compared with a reference schedule after every clock advance: '
